@@ -251,9 +251,13 @@ def conditions(tier):
     for n in ([996, 1000, 1001, 1004] if q else [996, 997, 998, 999, 1000, 1001, 1002, 1003, 1004, 2000, 4001]):
         add(f'C19.truncation[Bits,n={n}]', h_truncated('Bits', n), f'all {n}-bit contents (symbolic)', n=n)
     for fk in (['bin8', 'hex', 'oct12', 'bin, hex', 'bin:0', 'hex16, bin'] if q else list(PP_FORMATS)):
-        for n in ([0, 24, 45] if q else [0, 7, 24, 45, 48, 96]):
+        for n in ([0, 24, 45, 48] if q else [0, 7, 24, 45, 48, 96]):
+            if q and n == 45 and not any(ch.isdigit() for ch in fk):
+                continue   # without an explicit group length a 45-bit value cannot be shown in hex/oct
             for lsb0 in ((False,) if q else (False, True)):
                 add(f"C19.pp[Bits,{fk},n={n}{',lsb0' if lsb0 else ''}]", h_pp('Bits', n, fk, lsb0, ' '), f'width in [0,200] x show_offset; format {fk!r}; {n}-bit concrete pattern', n=n, fmt=fk)
+        if fk in ('bin, hex', 'hex16, bin', 'bin8', 'hex, oct') and (not q or fk in ('bin, hex', 'bin8')):
+            add(f'C19.pp[Bits,{fk},n=48,sep=" | "]', h_pp('Bits', 48, fk, False, ' | '), f"width in [0,200] x show_offset; format {fk!r}; separator ' | '", n=48, fmt=fk)
         if not q:
             add(f'C19.pp[BitStream,{fk},n=24,sep=_]', h_pp('BitStream', 24, fk, False, '_'), f"width in [0,200] x show_offset; format {fk!r}; separator '_'", n=24, fmt=fk)
     for dtype, values in [('uint8', [0, 1, 255]), ('int5', [-16, 0, 15]), ('float32', [0.0, -1.5, 3.25]), ('hex4', ['a', '0', 'f']), ('bool', [True, False]), ('uintle16', [1, 256]),
